@@ -165,6 +165,7 @@ structure RevLay where
   xnum : Nat          -- object number of the cross-reference stream
   hiddenGen : Nat     -- hybrid: generation written in the table's free entries of hidden objects
   swap : Option (Nat × Nat)   -- exchange the offsets of two in-use entries (identity mismatch)
+  relabel : Option (Nat × Nat) := none  -- list object number a under number b (the object itself still says a)
   dictOrder : Nat     -- rotation of the dictionary entries
 
 /-- one revision to be written -/
@@ -214,6 +215,11 @@ def swapOfs (sw : Option (Nat × Nat)) (us : List (Nat × Nat × Nat)) : List (N
     match oa, ob with
     | some oa, some ob => us.map fun u => if u.1 == a then (u.1, u.2.1, ob) else if u.1 == b then (u.1, u.2.1, oa) else u
     | _, _ => us
+
+def relabelUse (rl : Option (Nat × Nat)) (us : List (Nat × Nat × Nat)) : List (Nat × Nat × Nat) :=
+  match rl with
+  | none => us
+  | some (a, b) => us.map fun u => if u.1 == a then (b, u.2.1, u.2.2) else u
 
 /-- rows of a cross-reference stream and its dictionary entries (without /Length); returns the
     stream data and the entries -/
@@ -274,7 +280,7 @@ def tailBytes (xofs : Nat) (c : Ch) : Bytes :=
 def renderRev (r : Rev) (pos : Nat) (prev : Option Nat) : Bytes × Nat × Said :=
   let lay := r.lay
   let (body, us0, vals) := renderObjs r.objs pos
-  let us := swapOfs lay.swap us0
+  let us := relabelUse lay.relabel (swapOfs lay.swap us0)
   let p1 := pos + body.length
   let uses : List XE := us.map fun u => ⟨u.1, 1, u.2.2, u.2.1⟩
   let mems : List XE := r.members.map fun m => ⟨m.1, 2, m.2.1, m.2.2.1⟩
@@ -353,5 +359,98 @@ def mkContainer (num : Nat) (members : List (Nat × Obj × Obj × Ch × Bytes)) 
     (if flate then [(bs "Filter", .name (bs "FlateDecode"))] else [])
   ({ o with num := num, gen := 0, body := .stm ents payload },
    members.zipIdx.map fun (m, k) => (m.1, num, k, m.2.1))
+
+/-! ## reading an ACCEPTED load back from the bytes alone
+
+  For arbitrary (corrupted, raw) input there is no abstract document to compare with.  What can
+  still be decided from the bytes, without any parser model: if the file's newest cross-reference
+  section is a classic table (found through the last `startxref`, read by position with the
+  declarative 20-byte entry form of Spec/Xref), then after an ACCEPTED load every in-use entry
+  `(n, g, ofs)` of that section - the first one per identifier - must (a) be among the defined
+  identifiers and (b) have the header `n g obj` at `ofs` (after optional white space / comments).
+  Newest-section entries are never shadowed, so this follows from the statement "a file in which
+  the object found at a cross-reference offset carries a different identifier than its entry is
+  rejected".  Identifiers bound to a cross-reference stream object are exempt from (b): the loader
+  registers those while walking the /Prev chain, from the chain's offsets.  When the newest section
+  is not a readable table nothing is claimed. -/
+
+def indexOf (pat : Bytes) : Bytes → Option Nat
+  | [] => none
+  | b :: t => if pat.isPrefixOf (b :: t) then some 0 else (indexOf pat t).map (· + 1)
+
+def lastIndexOf (pat : Bytes) : Bytes → Option Nat
+  | [] => none
+  | b :: t =>
+    match lastIndexOf pat t with
+    | some k => some (k + 1)
+    | none => if pat.isPrefixOf (b :: t) then some 0 else none
+
+/-- the in-use entries `(n, g, ofs)` of the table at `cur` (after the `xref` keyword), read by
+    position; `none` = not readable as a table -/
+def tableUses (s : Bytes) : Nat → Nat → List (Nat × Nat × Nat) → Option (List (Nat × Nat × Nat))
+  | 0, _, acc => some acc
+  | f + 1, cur, acc =>
+    match XrefSpec.scanHeader s cur with
+    | none => if acc.isEmpty then none else some acc
+    | some (st, cnt, first) =>
+      if first + 20 * cnt > s.length then none
+      else
+        let es := (List.range cnt).map fun k => (st + k, XrefSpec.entryAt s (first + 20 * k))
+        if es.any fun e => e.2.isNone then none
+        else
+          let uses := es.filterMap fun e => match e.2 with
+            | some (info, gen, true) => some (e.1, gen, info)
+            | _ => none
+          tableUses s f (first + 20 * cnt) (acc ++ uses)
+
+/-- the identifier spelled by an indirect-object header at `ofs` -/
+def headerAt (s : Bytes) (ofs : Nat) : Option (Nat × Nat) :=
+  let j := XrefSpec.skipWsComments (s.length + 1) s ofs
+  match XrefSpec.readNum s j with
+  | none => none
+  | some (n, j1) =>
+    let j2 := XrefSpec.skipWsComments (s.length + 1) s j1
+    if j2 == j1 then none
+    else match XrefSpec.readNum s j2 with
+      | none => none
+      | some (g, j3) =>
+        let j4 := XrefSpec.skipWsComments (s.length + 1) s j3
+        if (bs "obj").isPrefixOf (s.drop j4) then some (n, g) else none
+
+/-- in-use entries of the newest section when it is a classic table -/
+def newestTableUses (file : Bytes) : Option (Bytes × List (Nat × Nat × Nat)) :=
+  match indexOf (bs "%PDF-") file with
+  | none => none
+  | some h =>
+    let s := file.drop h
+    let eof := (lastIndexOf (bs "%%EOF") s).getD s.length
+    match lastIndexOf (bs "startxref") (s.take eof) with
+    | none => none
+    | some sx =>
+      let i := XrefSpec.skipWsComments (s.length + 1) s (sx + 9)
+      match XrefSpec.readNum s i with
+      | none => none
+      | some (x, _) =>
+        let i0 := XrefSpec.skipWsComments (s.length + 1) s x
+        if !((bs "xref").isPrefixOf (s.drop i0)) then none
+        else (tableUses s (s.length + 1) (i0 + 4) []).map fun u => (s, u)
+
+/-- `none` = nothing wrong (or nothing claimed); `some msg` = an accepted load that contradicts the
+    newest table.  `defined` = identifiers the implementation reports, with "is a cross-reference
+    stream object". -/
+def entryViolation (file : Bytes) (defined : List ((Nat × Nat) × Bool)) : Option String :=
+  match newestTableUses file with
+  | none => none
+  | some (s, uses) =>
+    let firsts := uses.zipIdx.filter fun (u, k) => !((uses.take k).any fun v => v.1 == u.1 && v.2.1 == u.2.1)
+    (firsts.findSome? fun (u, _) =>
+      match defined.find? fun d => d.1 == (u.1, u.2.1) with
+      | none => some s!"in-use entry ({u.1},{u.2.1}) at offset {u.2.2} is not defined after an accepted load"
+      | some d =>
+        if d.2 then none
+        else match headerAt s u.2.2 with
+          | some id => if id == (u.1, u.2.1) then none
+                       else some s!"entry ({u.1},{u.2.1}) points at offset {u.2.2} where object ({id.1},{id.2}) is written"
+          | none => some s!"entry ({u.1},{u.2.1}) points at offset {u.2.2} where no object header is written")
 
 end Parsley.DocSpec
